@@ -488,13 +488,16 @@ def check(scn, k, fw, hist, state, lost, DeviceError, hostmsgs, ackhist, relaxed
         for (hs, t, hd), a_ in zip(hostmsgs, acted):
             if not is_err(t) or a_ is None:
                 continue
-            # the stored error is raised by the write in progress (if its error check had not
-            # run yet) or else by the first write that starts afterwards
+            # The error is stored somewhere between the hand-over of the line (hs) and the set()
+            # it causes (a_).  It is raised by the first error check that runs after the store:
+            # a write that was in progress at that time (completing after hs) or else the first
+            # write that starts after a_.
             def raised(c):
                 return c["kind"] == "raise" and isinstance(c["exc"], DeviceError)
-            cur = [c for c in calls if c["out"] is not None and c["call"] < a_ < c["out"]]
-            nxt = [c for c in calls if c["out"] is not None and c["call"] > a_]
-            if not (any(raised(c) for c in cur) or not nxt or raised(nxt[0])):
+            done = [c for c in calls if c["out"] is not None]
+            early = [c for c in done if c["out"] > hs and c["call"] < a_]
+            nxt = [c for c in done if c["call"] > a_]
+            if not (any(raised(c) for c in early) or not nxt or raised(nxt[0])):
                 V("error-swallowed", stmt=nxt[0]["i"], reply=t[:40])
 
     if not loss:
